@@ -503,6 +503,158 @@ func Funcs[T any]() (interface{}, interface{}) {
 	return func(<-chan T) {}, func(chan<- T) {}
 }
 `, "\ta, b, c := Ends(make(chan Int))\n\td, e, f := Ends(make(chan string))\n\tp := NewPipe[Int]()\n\tp.In <- 7\n\tvar pi, po interface{} = p.In, p.Out\n\tf1, f2 := Funcs[Int]()\n\t_, ok1 := f1.(func(<-chan Int))\n\t_, ok2 := f2.(func(chan<- Int))\n\t_, ok3 := f1.(func(chan Int))\n\tprintln(\"C04/chandir\", kind(a), kind(b), kind(c), kind(d), kind(e), kind(f), kind(pi), kind(po), itoa(int64(<-p.Out)), btoa(a == b), btoa(ok1), btoa(ok2), btoa(ok3))\n"),
+		mk("anonstruct", `// anonymous struct types that mention a type parameter, built inside generic code, observed from non-generic code
+func Entry[T any](k string, v T) interface{} {
+	return struct {
+		Key string
+		Val T `+"`json:\"val\"`"+`
+	}{k, v}
+}
+
+func Row[T any](a, b T) interface{} {
+	return struct {
+		A T `+"`a`"+`
+		B T `+"`b`"+`
+	}{a, b}
+}
+
+func Triple[K comparable, V any](k K, v V) interface{} {
+	return struct {
+		K    K
+		V    V `+"`v`"+`
+		Note string
+		N    Int `+"`n`"+`
+	}{k, v, "n", 1}
+}
+
+func Inner[T any](v T) interface{} {
+	type rec struct {
+		Name string
+		Item T `+"`item`"+`
+	}
+	return rec{"r", v}
+}
+
+func kindOf(x interface{}) string {
+	switch x.(type) {
+	case struct {
+		Key string
+		Val Int `+"`json:\"val\"`"+`
+	}:
+		return "entry[Int]"
+	case struct {
+		Key string `+"`json:\"val\"`"+`
+		Val Int
+	}:
+		return "shifted-tag"
+	case struct {
+		Key string
+		Val Int
+	}:
+		return "untagged"
+	case struct {
+		Key string
+		Val string `+"`json:\"val\"`"+`
+	}:
+		return "entry[string]"
+	case struct {
+		A Int `+"`a`"+`
+		B Int `+"`b`"+`
+	}:
+		return "row[Int]"
+	case struct {
+		K    string
+		V    Int `+"`v`"+`
+		Note string
+		N    Int `+"`n`"+`
+	}:
+		return "triple[string,Int]"
+	}
+	return "unknown"
+}
+`, "\tlit := struct {\n\t\tKey string\n\t\tVal Int `json:\"val\"`\n\t}{\"a\", 1}\n\tm := map[interface{}]string{lit: \"literal\"}\n\tm[Entry(\"a\", Int(1))] = \"generic\"\n\t_, isRec := Inner(Int(1)).(struct {\n\t\tName string\n\t\tItem Int `item`\n\t})\n\tprintln(\"C04/anonstruct\", kindOf(Entry(\"a\", Int(1))), kindOf(Entry(\"b\", \"two\")), kindOf(Row(Int(3), Int(4))), kindOf(Triple(\"k\", Int(5))), btoa(Entry(\"a\", Int(1)) == interface{}(lit)), itoa(int64(len(m))), m[lit], btoa(isRec))\n"),
+		mk("typeswitchT", `type Celsius float64
+type Point struct{ X, Y Int }
+type Shape interface{ Area() Int }
+type Sq struct{ s Int }
+
+func (q Sq) Area() Int { return q.s * q.s }
+
+// a clause whose type is the bare type parameter: the clause variable has the type argument's representation
+func First[T any](xs []interface{}, show func(T) string) string {
+	for _, x := range xs {
+		switch v := x.(type) {
+		case T:
+			return "T:" + show(v)
+		case []T:
+			return "[]T:" + itoa(int64(len(v)))
+		case *T:
+			return "*T:" + show(*v)
+		}
+	}
+	return "none"
+}
+
+func Sum[T ~int | ~int32 | ~float64](xs []interface{}) T {
+	var s T
+	for _, x := range xs {
+		switch v := x.(type) {
+		case T:
+			s += v
+		case nil:
+			s -= 1
+		default:
+			_ = v
+		}
+	}
+	return s
+}
+
+func Same[T comparable](a T, x interface{}) string {
+	switch v := x.(type) {
+	case T:
+		if v == a {
+			return "same value"
+		}
+		return "same type"
+	case interface{ Area() Int }:
+		return "shape"
+	}
+	return "other"
+}
+`, "\tp := Point{1, 2}\n\ts := \"hit\"\n\tvals := []interface{}{nil, 2.5, &p, Int(42), s, Celsius(1.5), p, Sq{5}, []Int{1}, &s}\n\tprintln(\"C04/typeswitchT\", First[Int](vals, func(v Int) string { return itoa(int64(v)) }), First[string](vals, func(v string) string { return v }), First[Point](vals, func(v Point) string { return itoa(int64(v.X + v.Y)) }), First[Shape](vals, func(v Shape) string { return itoa(int64(v.Area())) }), First[Celsius](vals, func(v Celsius) string { return ftoa(float64(v)) }), First[int8](vals, func(v int8) string { return \"x\" }), First[float64](vals, func(v float64) string { return ftoa(v) }), itoa(int64(Sum[Int]([]interface{}{Int(40), nil, \"x\", Int(2)}))), ftoa(float64(Sum[Celsius]([]interface{}{Celsius(1.5), 2.5, Celsius(2)}))), Same(Int(1), Int(1)), Same(Int(1), Int(2)), Same(\"a\", \"a\"), Same(p, Point{1, 2}), Same(Int(1), Sq{1}), Same(Sq{1}, Sq{1}))\n"),
+		mk("samenamelocals", `type stepper interface{ step(Int) Int }
+
+type remote struct{ c chan Int }
+
+func (r remote) step(x Int) Int { go func() { r.c <- x * 2 }(); return <-r.c }
+
+type local struct{}
+
+func (local) step(x Int) Int { return x + 1 }
+
+// the same generic function, with function literals, instantiated with two different function-local types that have the same name
+func Drive[W stepper](w W, log *string) Int {
+	total := Int(0)
+	each := func(x Int) { total = total*10 + w.step(x) }
+	for i := Int(1); i <= 3; i++ {
+		each(i)
+	}
+	func() { *log += "inline;" }()
+	defer func() { *log += "deferred;" }()
+	return total
+}
+
+func useLocal(log *string) Int {
+	type worker struct{ local }
+	return Drive(worker{}, log)
+}
+
+func useRemote(log *string) Int {
+	type worker struct{ remote }
+	return Drive(worker{remote{make(chan Int)}}, log)
+}
+`, "\tlog := \"\"\n\ta := useLocal(&log)\n\tb := useRemote(&log)\n\tprintln(\"C04/samenamelocals\", itoa(int64(a)), itoa(int64(b)), log)\n"),
 		mk("rangechan", `func RangeChan[C ~chan E, E any](c C) (n int) {
 	for range c {
 		n++
